@@ -3062,7 +3062,7 @@ impl<'a, R: FileManager> FrontendCtx<'a, R> {
             (
                 RuntypeKind::Object {
                     vs,
-                    indexed_properties: _,
+                    indexed_properties: None,
                 },
                 other,
             ) => {
